@@ -417,9 +417,15 @@ K.ghost("nr(k)", "int", None, concrete="best(k, npoints)")
 K.requires("forall(k, 0 <= k < ncells, 0 <= nr(k) and nr(k) < npoints and forall(j, 0 <= j < npoints, dst(k, nr(k)) <= dst(k, j)) and "
            "forall(j, 0 <= j < nr(k), dst(k, j) > dst(k, nr(k))), nr(k))")
 K.ghost("cnt(j, n)", "int", "ite(n <= 0, 0, cnt(j, n - 1) + ite(nr(n - 1) == j, 1, 0))", decreases="n")
+# the counts add up to the number of cells (every cell has exactly one nearest point), hence the weights cnt(j)/ncells sum to 1
+K.ghost("tot(P, n)", "int", "ite(P <= 0, 0, tot(P - 1, n) + cnt(P - 1, n))", decreases="P")
+K.lemma("tot_zero", "tot(P, 0) == 0", var="P", lo="0", trigger="tot(P, 0)")
+K.lemma("tot_step", "tot(P, n + 1) == tot(P, n) + ite(0 <= nr(n) and nr(n) < P, 1, 0)", fixed=["n"], var="P", lo="0", pre="n >= 0", trigger="tot(P, n + 1)")
+K.lemma("tot_all", "implies(n <= ncells, tot(npoints, n) == n)", var="n", lo="0", trigger="tot(npoints, n)")
 K.assigns("weights[0:npoints]")
 K.ensures("result == 0", props=["C16"])
 K.ensures("forall(j, 0 <= j < npoints, not isnan(weights[j]) and weights[j] == real(cnt(j, ncells))/real(ncells))", props=["C16"])
+K.ensures("tot(npoints, ncells) == ncells", props=["C16"])
 K.loop(0, var="j", invariant=["0 <= j and j <= npoints", "forall(q, 0 <= q < j, not isnan(weights[q]) and weights[q] == 0)"])
 K.loop(1, var="i", invariant=["0 <= i and i <= ncells", "forall(q, 0 <= q < npoints, not isnan(weights[q]) and weights[q] == real(cnt(q, i)))"])
 K.loop(2, var="j", invariant=[
